@@ -110,7 +110,7 @@ func loadSettingsFromEnv() (*Settings, error) {
 	authorizerPath := getStringFromEnv(authorizerPathEnvKey)
 	spoolDir := getStringFromEnv(spoolDirEnvKey)
 	trustForwardedHeaders := getBoolFromEnv(trustForwardedHeadersEnvKey)
-	trustedProxyCIDRs := getStringSliceFromEnv(trustedProxyCIDRsEnvKey)
+	trustedProxyCIDRs := keepConfiguredTrustedProxyCIDRs(os.Getenv(trustedProxyCIDRsEnvKey), getStringSliceFromEnv(trustedProxyCIDRsEnvKey))
 	logLevel := getStringFromEnv(logLevelEnvKey)
 	otelEnabled := getBoolFromEnv(otelEnabledEnvKey)
 	otelExporter := getStringFromEnv(otelExporterEnvKey)
